@@ -13,6 +13,7 @@ import (
 	"os"
 	"os/exec"
 	"runtime"
+	"runtime/pprof"
 	"sort"
 	"strconv"
 	"strings"
@@ -78,7 +79,11 @@ type Step struct {
 	Events []event.Event
 	Tap    []world.TapRec
 	Diff   []LeafDiff
+	Tags   []string // monitors may tag a step; tags are counted into coverage.transition_outcomes as "tag:<t>"
 }
+
+// Tag counts a named observation about this step in the evidence.
+func (s *Step) Tag(t string) { s.Tags = append(s.Tags, t) }
 
 // Monitor checks one transition; v reports a violation (key = stable signature).
 type Monitor func(s *Step, v func(key, what string))
@@ -346,6 +351,11 @@ func (e *Explorer) worker() {
 		ev.Fatal("bad VERIF_SHARD")
 	}
 	outPath := os.Getenv("VERIF_SHARD_OUT")
+	if pf := os.Getenv("VERIF_CPUPROFILE"); pf != "" {
+		f, _ := os.Create(pf)
+		pprof.StartCPUProfile(f)
+		defer pprof.StopCPUProfile()
+	}
 	journal, _ := os.Create(outPath + ".journal")
 	deadline := time.Now().Add(e.Budget)
 	so := shardOut{Outcomes: map[string]int64{}}
@@ -412,6 +422,9 @@ func (e *Explorer) worker() {
 							so.Violations = append(so.Violations, vio{Key: key, What: fmt.Sprintf("%s | after %v action %s | txn err=%v status=%d output=%.200s", what, s.Path, a.Name, st.Err, st.Txn.Status, st.Txn.TransactionOutput), Path: st.Post.Path})
 						})
 					}
+					for _, t := range st.Tags {
+						so.Outcomes["tag:"+t]++
+					}
 					if len(so.Samples) < 3 && st.Err == nil && depth >= 1 {
 						so.Samples = append(so.Samples, st.Post.Path)
 					}
@@ -446,6 +459,7 @@ func (e *Explorer) worker() {
 	if err := os.WriteFile(outPath, data, 0o644); err != nil {
 		ev.Fatal("write shard: %v", err)
 	}
+	pprof.StopCPUProfile()
 	os.Exit(0)
 }
 
